@@ -379,12 +379,12 @@ pub fn run(tier: Tier, replay: Option<&J>) -> i32 {
     refbin::self_test();
     pcf::self_test();
     let depth = match tier {
-        Tier::Quick => 4,
-        Tier::Thorough => 6,
+        Tier::Quick => 5,
+        Tier::Thorough => 7,
     };
     let corpus_depth = match tier {
-        Tier::Quick => 2,
-        Tier::Thorough => 3,
+        Tier::Quick => 3,
+        Tier::Thorough => 4,
     };
     let corpus = corpus::build(corpus_depth, false);
     let part = replay.and_then(|r| r["part"].as_str()).map(|s| s.to_string());
